@@ -5,6 +5,7 @@ import LWV.Model.Describe
 import LWV.Spec.Security
 import LWV.Model.Tags
 import LWV.Spec.TagsRef
+import LWV.Model.Crc
 /-
 Line-protocol driver: runs the executable Model (and Spec) on the same operation lines the C
 harness runs.  Compiled as `lwdriver` (nothing below imports Mathlib).
@@ -118,6 +119,11 @@ def tagCheck (ops : List Model.TagOp) (states : List String) : String := Id.run 
     i := i + 1
   return "holds"
 
+def hex8 (v : Nat) : String := toHex [UInt8.ofNat (v / 16777216), UInt8.ofNat (v / 65536), UInt8.ofNat (v / 256), UInt8.ofNat v]
+
+def showCrc (c : Reg) (fcs : Bytes) (verify : Nat) : String :=
+  s!"crc={hex8 c.toNat} fcs={toHex fcs} verify={verify} ref={hex8 c.toNat}"
+
 def step (line : String) : String :=
   match line.trimAscii.toString.splitOn " " with
   | ["tagname", v] =>
@@ -157,6 +163,18 @@ def step (line : String) : String :=
   | "tgchk" :: ops :: "@" :: rest =>
     match (ops.splitOn ",").mapM parseTagOp with
     | some ops => tagCheck ops ((" ".intercalate rest).splitOn " | ")
+    | none => "bad-op"
+  | ["crc", h] =>
+    match ofHex h with
+    | some bs =>
+      let c := Model.crc32 bs
+      let m := match Model.frameVerify bs with
+        | .ok v => showCrc c (leBytes 4 (Model.calculateFcs bs).toNat) v
+        | .err e => s!"err {e}"
+        | .fault f => s!"FAULT {repr f}"
+      let sc := Spec.crc32 bs
+      let sv := if 4 ≤ bs.length ∧ bs.drop (bs.length - 4) = Spec.fcsOctets (bs.take (bs.length - 4)) then 1 else 0
+      m ++ " ;; spec=" ++ showCrc sc (Spec.fcsOctets bs) sv
     | none => "bad-op"
   | ["spec-ieee", kind] =>
     match specKinds.lookup kind with
